@@ -1,5 +1,6 @@
 import TangeloModel.Qft
 import TangeloProofs.Lemmas.OpInverse
+import TangeloProofs.CycLaws
 import Mathlib.Tactic.Ring
 import Mathlib.Tactic.Linarith
 import Mathlib.Tactic.NormNum
@@ -381,6 +382,15 @@ theorem mux_select1 (k : Consts R) (L : k.Laws) (b : Base) (hb : b = .RY ∨ b =
   rw [mux_conj_x k L b hb c, mux_select0 k L b hb a (-c)]
 
 end mux
+
+/-! ## executable instance: angles j ↦ π/2^j for j ≤ 2 live in `Ang`; the cancellation theorem for `cycConsts` -/
+
+/-- QFT followed by its `inverse=True` circuit (swap off) is the identity for the amplitudes the driver computes,
+    for any phase map with `ph(−a)·ph(a) = 1` -/
+theorem qft_inverse_cancels_noswap_exec {A : Type} (ph : A → Cyc) (ang : Nat → A) (neg : A → A)
+    (hph : ∀ a, ph (neg a) * ph a = 1) (qs : List Nat) (hn : qs.Nodup) (ψ : State Cyc) :
+    semL cycConsts ph (qft ang neg qs true false) (semL cycConsts ph (qft ang neg qs false false) ψ) = ψ :=
+  qft_inverse_cancels_noswap cycConsts cycConsts_laws ph ang neg hph qs hn ψ
 
 /-! ## non-vacuity -/
 example : qft (fun j => (j : Int)) (fun a => -a) [3, 1, 2] true true =
